@@ -21,6 +21,7 @@ Core: a translator for *small arithmetic function bodies* --
 import argparse
 import ast
 import os
+import re
 import sys
 
 
@@ -3847,6 +3848,1552 @@ def frag_fileflags(src):
                "    ptTempoMode := ptTempoMode }\n")
     return "\n".join(out)
 # end of FileFlags
+
+
+# ---------------------------------------------------------------------------
+# ProgressGuard  (C19):  how every API guards its progress object, and what the
+# progress classes do per statement
+# ---------------------------------------------------------------------------
+#
+# Part 1 -- API table.  Every function / method of the anchored files whose body calls
+# `get_progress(...)` must use the resulting object in one of these shapes:
+#     P = get_progress(x) ... with P(args) as Y: ...          -> withStmt
+#     with get_progress(x)(args) as Y: ...                    -> withStmt
+#     Y = get_progress(x)(args); Y.enter(); try: ... finally: Y.exit() [first stmt]
+#                                                             -> tryFinally
+#     Y = get_progress(x)(args); Y.enter(); ...; Y.exit()     -> bare
+#   (a try/finally that does not start right after `Y.enter()` is `bare`).
+#   Anything else is Untranslatable.  `BaseProgress.__enter__/__exit__` must delegate to
+#   `enter()` / `exit()`.
+#
+# Part 2 -- micro-op lists of each class registered in PROGRESS_DICT:
+#     print(...) / self._file.write(...)            -> print     (self._file.flush(): nothing)
+#     self.<pure-output method>()                   -> print
+#     self._timer.cancel()                          -> cancelTimer
+#     self._timer = Timer(<number>, self.<method>)  -> newTimer <method>
+#     self._timer.daemon = True                     -> setDaemon
+#     self._timer.start()                           -> startTimer
+#     self._active = True / False                   -> setActive
+#     with self._lock: BODY                         -> acquire, BODY, release
+#     if not self._active: return                   -> returnUnlessActive
+#     self.<other attribute> = <expr>               -> setStep
+#     if <test>: <only prints | only plain stores>  -> print | setStep  (one op, at the `if`)
+#     local assignment, `pass`, docstring, final `return [self]`, try/except around local
+#     assignments                                   -> nothing
+#   where <expr>/<test> must not mention _timer/_active/_lock/Timer/Lock.
+
+PG_FILES = ["oqupy/util.py", "oqupy/system_dynamics.py", "oqupy/gradient.py",
+            "oqupy/tempo.py", "oqupy/pt_tempo.py", "oqupy/pt_tebd.py"]
+PG_SHARED = {"_timer", "_active", "_lock"}
+EXTRA_IMPORTS["ProgressGuard"] = "import OQuPyVerif.Model.Progress\n"
+
+
+def _pg_is_call_of(node, name):
+    return isinstance(node, ast.Call) and isinstance(node.func, ast.Name) and node.func.id == name
+
+
+def _pg_calls_get_progress(fn):
+    """get_progress(...) calls directly in the body of fn (not in nested defs)"""
+    out = []
+
+    def walk(n):
+        for ch in ast.iter_child_nodes(n):
+            if isinstance(ch, (ast.FunctionDef, ast.AsyncFunctionDef, ast.Lambda, ast.ClassDef)):
+                continue
+            if _pg_is_call_of(ch, "get_progress"):
+                out.append(ch)
+            walk(ch)
+    walk(fn)
+    return out
+
+
+def _pg_method_call(stmt, var, meth):
+    """stmt is `var.meth()`"""
+    return (isinstance(stmt, ast.Expr) and isinstance(stmt.value, ast.Call)
+            and isinstance(stmt.value.func, ast.Attribute) and stmt.value.func.attr == meth
+            and isinstance(stmt.value.func.value, ast.Name) and stmt.value.func.value.id == var
+            and not stmt.value.args and not stmt.value.keywords)
+
+
+def _pg_blocks(fn):
+    """every statement list inside fn (not entering nested defs)"""
+    todo = [fn.body]
+    while todo:
+        blk = todo.pop()
+        yield blk
+        for st in blk:
+            if isinstance(st, (ast.FunctionDef, ast.AsyncFunctionDef, ast.ClassDef)):
+                continue
+            for field in ("body", "orelse", "finalbody"):
+                sub = getattr(st, field, None)
+                if isinstance(sub, list) and sub and isinstance(sub[0], ast.stmt):
+                    todo.append(sub)
+            for h in getattr(st, "handlers", []) or []:
+                todo.append(h.body)
+
+
+def _pg_api_uses(rel, qual, fn):
+    calls = _pg_calls_get_progress(fn)
+    if not calls:
+        return []
+    accounted = set()
+    uses = []
+    factories = {}       # local name bound to get_progress(...)
+    for blk in _pg_blocks(fn):
+        for i, st in enumerate(blk):
+            # P = get_progress(x)
+            if isinstance(st, ast.Assign) and len(st.targets) == 1 \
+                    and isinstance(st.targets[0], ast.Name) and _pg_is_call_of(st.value, "get_progress"):
+                factories[st.targets[0].id] = st.value
+    for blk in _pg_blocks(fn):
+        for i, st in enumerate(blk):
+            if isinstance(st, ast.With):
+                for item in st.items:
+                    ce = item.context_expr
+                    if not isinstance(ce, ast.Call):
+                        continue
+                    if isinstance(ce.func, ast.Name) and ce.func.id in factories:
+                        accounted.add(id(factories[ce.func.id]))
+                    elif _pg_is_call_of(ce.func, "get_progress"):
+                        accounted.add(id(ce.func))
+                    else:
+                        continue
+                    if len(st.items) != 1 or not isinstance(item.optional_vars, ast.Name):
+                        raise Untranslatable("%s:%s: unusual with-statement around a progress object"
+                                             % (rel, qual))
+                    uses.append((st.lineno, "withStmt"))
+            # Y = get_progress(x)(args)
+            if isinstance(st, ast.Assign) and len(st.targets) == 1 \
+                    and isinstance(st.targets[0], ast.Name) and isinstance(st.value, ast.Call) \
+                    and _pg_is_call_of(st.value.func, "get_progress"):
+                var = st.targets[0].id
+                accounted.add(id(st.value.func))
+                if i + 1 >= len(blk) or not _pg_method_call(blk[i + 1], var, "enter"):
+                    raise Untranslatable("%s:%s: progress object %s is not entered right after "
+                                         "its construction" % (rel, qual, var))
+                after = blk[i + 2:]
+                style = None
+                if after and isinstance(after[0], ast.Try) and after[0].finalbody \
+                        and _pg_method_call(after[0].finalbody[0], var, "exit"):
+                    style = "tryFinally"
+                elif any(_pg_method_call(s2, var, "exit") for s2 in after):
+                    style = "bare"
+                elif any(isinstance(s2, ast.Try) and s2.finalbody and
+                         any(_pg_method_call(s3, var, "exit") for s3 in s2.finalbody)
+                         for s2 in after):
+                    style = "bare"      # guarded only from some later point on
+                if style is None:
+                    raise Untranslatable("%s:%s: no exit() for progress object %s"
+                                         % (rel, qual, var))
+                uses.append((st.lineno, style))
+    for c in calls:
+        if id(c) not in accounted:
+            raise Untranslatable("%s:%s: get_progress(...) at line %d is used in a shape the "
+                                 "translator does not know" % (rel, qual, c.lineno))
+    uses.sort()
+    return uses
+
+
+def _pg_mentions_shared(node):
+    for n in ast.walk(node):
+        if isinstance(n, ast.Attribute) and n.attr in PG_SHARED:
+            return True
+        if isinstance(n, ast.Name) and n.id in ("Timer", "Lock", "RLock", "Thread"):
+            return True
+    return False
+
+
+def _pg_self_attr(node, attr=None):
+    return (isinstance(node, ast.Attribute) and isinstance(node.value, ast.Name)
+            and node.value.id == "self" and (attr is None or node.attr == attr))
+
+
+class _PgClass:
+    def __init__(self, rel, cls, bases):
+        self.rel, self.cls = rel, cls
+        self.methods = {}
+        for c in [cls] + bases:
+            for st in c.body:
+                if isinstance(st, ast.FunctionDef) and st.name not in self.methods:
+                    self.methods[st.name] = st
+        self._pure = {}
+
+    def err(self, node, msg):
+        raise Untranslatable("%s:%d: %s.%s" % (self.rel, getattr(node, "lineno", 0),
+                                                  self.cls.name, msg))
+
+    def pure_output(self, name):
+        """method whose statements are only local computation and output"""
+        if name not in self._pure:
+            if name not in self.methods:
+                self._pure[name] = False
+            else:
+                self._pure[name] = False     # recursion guard
+                try:
+                    ops = self.block(self.methods[name].body, name, allow_calls=False)
+                    self._pure[name] = all(o[0] == "print" for o in ops) and len(ops) > 0
+                except Untranslatable:
+                    self._pure[name] = False
+        return self._pure[name]
+
+    def block(self, stmts, mname, allow_calls=True, last_of_method=True):
+        ops = []
+        n = len(stmts)
+        for i, st in enumerate(stmts):
+            is_last = last_of_method and i == n - 1
+            ops += self.stmt(st, mname, allow_calls, is_last)
+        return ops
+
+    def stmt(self, st, mname, allow_calls, is_last):
+        ln = st.lineno
+        if isinstance(st, ast.Expr) and isinstance(st.value, ast.Constant):
+            return []
+        if isinstance(st, ast.Pass):
+            return []
+        if isinstance(st, ast.Return):
+            if not is_last:
+                self.err(st, "%s: return before the end" % mname)
+            if st.value is None or (isinstance(st.value, ast.Name) and st.value.id == "self"):
+                return []
+            self.err(st, "%s: returns something else than self" % mname)
+        if isinstance(st, ast.Expr) and isinstance(st.value, ast.Call):
+            c = st.value
+            f = c.func
+            if isinstance(f, ast.Name) and f.id == "print":
+                if any(_pg_mentions_shared(a) for a in c.args) or \
+                        any(_pg_mentions_shared(k.value) for k in c.keywords):
+                    self.err(st, "%s: print of protocol state" % mname)
+                return [("print", ln)]
+            if isinstance(f, ast.Attribute) and _pg_self_attr(f.value, "_file"):
+                if f.attr == "write":
+                    return [("print", ln)]
+                if f.attr == "flush":
+                    return []
+            if isinstance(f, ast.Attribute) and _pg_self_attr(f.value, "_timer") \
+                    and not c.args and not c.keywords:
+                if f.attr == "cancel":
+                    return [("cancelTimer", ln)]
+                if f.attr == "start":
+                    return [("startTimer", ln)]
+            if isinstance(f, ast.Attribute) and _pg_self_attr(f.value, "_timer") \
+                    and f.attr == "setDaemon" and len(c.args) == 1 \
+                    and isinstance(c.args[0], ast.Constant) and c.args[0].value is True:
+                return [("setDaemon", ln)]
+            if _pg_self_attr(f) and not c.args and not c.keywords and allow_calls \
+                    and self.pure_output(f.attr):
+                return [("print", ln)]
+            self.err(st, "%s: call `%s`" % (mname, ast.unparse(st)[:80]))
+        if isinstance(st, (ast.Assign, ast.AnnAssign, ast.AugAssign)):
+            if isinstance(st, ast.Assign):
+                if len(st.targets) != 1:
+                    self.err(st, "%s: multiple assignment" % mname)
+                tgt = st.targets[0]
+            else:
+                tgt = st.target
+            val = st.value
+            if isinstance(tgt, ast.Name):
+                if val is not None and _pg_mentions_shared(val):
+                    self.err(st, "%s: local copy of protocol state" % mname)
+                return []
+            if _pg_self_attr(tgt, "_timer") and isinstance(st, ast.Assign):
+                if isinstance(val, ast.Call) and isinstance(val.func, ast.Name) \
+                        and val.func.id == "Timer" and len(val.args) == 2 and not val.keywords \
+                        and isinstance(val.args[0], ast.Constant) \
+                        and isinstance(val.args[0].value, (int, float)) \
+                        and _pg_self_attr(val.args[1]):
+                    cb = val.args[1].attr
+                    if cb == "update":
+                        return [("newTimer .update", ln)]
+                    if self.pure_output(cb):
+                        return [("newTimer .printStatus", ln)]
+                    self.err(st, "%s: timer callback %s" % (mname, cb))
+                self.err(st, "%s: assignment to _timer" % mname)
+            if isinstance(tgt, ast.Attribute) and _pg_self_attr(tgt.value, "_timer") \
+                    and tgt.attr == "daemon" and isinstance(val, ast.Constant) and val.value is True:
+                return [("setDaemon", ln)]
+            if _pg_self_attr(tgt, "_active") and isinstance(val, ast.Constant) \
+                    and isinstance(val.value, bool):
+                return [("setActive %s" % ("true" if val.value else "false"), ln)]
+            if _pg_self_attr(tgt) and tgt.attr not in PG_SHARED:
+                if val is not None and _pg_mentions_shared(val):
+                    self.err(st, "%s: store of protocol state" % mname)
+                return [("setStep", ln)]
+            self.err(st, "%s: assignment `%s`" % (mname, ast.unparse(st)[:80]))
+        if isinstance(st, ast.With):
+            if len(st.items) == 1 and _pg_self_attr(st.items[0].context_expr, "_lock") \
+                    and st.items[0].optional_vars is None:
+                inner = self.block(st.body, mname, allow_calls, last_of_method=is_last)
+                return [("acquire", ln)] + inner + [("release", ln)]
+            self.err(st, "%s: with-statement" % mname)
+        if isinstance(st, ast.If):
+            t = st.test
+            if isinstance(t, ast.UnaryOp) and isinstance(t.op, ast.Not) \
+                    and _pg_self_attr(t.operand, "_active") and not st.orelse \
+                    and len(st.body) == 1 and isinstance(st.body[0], ast.Return) \
+                    and st.body[0].value is None:
+                return [("returnUnlessActive", ln)]
+            if _pg_mentions_shared(t):
+                self.err(st, "%s: conditional on protocol state" % mname)
+            inner = self.block(st.body, mname, allow_calls, last_of_method=False)
+            other = self.block(st.orelse, mname, allow_calls, last_of_method=False)
+            kinds = {o[0] for o in inner}
+            if not inner and not other:
+                return []
+            if not other and len(kinds) == 1 and kinds <= {"print", "setStep"}:
+                return [(kinds.pop(), ln)]
+            self.err(st, "%s: conditional statement with protocol effects" % mname)
+        if isinstance(st, ast.Try):
+            # local computation guarded by except (frac = ... / except ZeroDivisionError)
+            parts = list(st.body) + [s2 for h in st.handlers for s2 in h.body] + \
+                list(st.orelse) + list(st.finalbody)
+            inner = self.block(parts, mname, allow_calls, last_of_method=False)
+            if inner:
+                self.err(st, "%s: try-statement with effects" % mname)
+            return []
+        self.err(st, "%s: statement %s" % (mname, type(st).__name__))
+
+    def init_ok(self):
+        fn = self.methods.get("__init__")
+        if fn is None:
+            self.err(self.cls, "__init__ missing")
+        for st in fn.body:
+            if isinstance(st, ast.Expr) and isinstance(st.value, ast.Constant):
+                continue
+            if isinstance(st, ast.Assign) and len(st.targets) == 1 and _pg_self_attr(st.targets[0]):
+                a, v = st.targets[0].attr, st.value
+                if a == "_timer" and not (isinstance(v, ast.Constant) and v.value is None):
+                    self.err(st, "__init__: _timer is not None")
+                if a == "_active" and not (isinstance(v, ast.Constant) and v.value is False):
+                    self.err(st, "__init__: _active is not False")
+                if a == "_lock" and not (_pg_is_call_of(v, "Lock") and not v.args):
+                    self.err(st, "__init__: _lock is not Lock()")
+                if a not in PG_SHARED and _pg_mentions_shared(v):
+                    self.err(st, "__init__: uses protocol state")
+                continue
+            self.err(st, "__init__: statement `%s`" % ast.unparse(st)[:60])
+
+
+def _pg_lean_list(items):
+    return "[" + ", ".join(items) + "]"
+
+
+@fragment("ProgressGuard")
+def frag_progressguard(src):
+    out = ["open OQuPyVerif.Progress\n"]
+    # ---- part 1: API table
+    rows = []
+    for rel in PG_FILES:
+        tree = src.tree(rel)
+        fns = []
+        for st in tree.body:
+            if isinstance(st, ast.FunctionDef):
+                fns.append((st.name, st))
+            elif isinstance(st, ast.ClassDef):
+                for s2 in st.body:
+                    if isinstance(s2, ast.FunctionDef):
+                        fns.append((st.name + "." + s2.name, s2))
+        seen_calls = 0
+        for qual, fn in fns:
+            if qual == "get_progress":
+                continue
+            uses = _pg_api_uses(rel, qual, fn)
+            seen_calls += len(_pg_calls_get_progress(fn))
+            for idx, (line, style) in enumerate(uses):
+                rows.append((rel, qual, idx, line, style))
+        total = sum(1 for n in ast.walk(tree) if _pg_is_call_of(n, "get_progress"))
+        if total != seen_calls:
+            raise Untranslatable("%s: %d call(s) of get_progress outside top-level functions / "
+                                 "methods" % (rel, total - seen_calls))
+    if not rows:
+        raise Untranslatable("no use of get_progress found")
+    out.append("/-- every use of a progress object by an API function, with its guarding style -/")
+    out.append("def apiTable : List ApiUse := [")
+    out.append(",\n".join(
+        '  { file := "%s", func := "%s", index := %d, line := %d, style := .%s }' % r
+        for r in rows))
+    out.append("]\n")
+    # ---- part 2: the progress classes
+    tree = src.tree("oqupy/util.py")
+    classes = {st.name: st for st in tree.body if isinstance(st, ast.ClassDef)}
+    base = classes.get("BaseProgress")
+    if base is None:
+        raise Untranslatable("BaseProgress not found")
+    bm = {st.name: st for st in base.body if isinstance(st, ast.FunctionDef)}
+
+    def body_wo_doc(fn):
+        return [s for s in fn.body
+                if not (isinstance(s, ast.Expr) and isinstance(s.value, ast.Constant))]
+    en, ex = body_wo_doc(bm["__enter__"]), body_wo_doc(bm["__exit__"])
+    if not (len(en) == 1 and isinstance(en[0], ast.Return)
+            and ast.unparse(en[0].value) == "self.enter()"):
+        raise Untranslatable("BaseProgress.__enter__ is not `return self.enter()`")
+    if not (len(ex) == 1 and isinstance(ex[0], ast.Expr)
+            and ast.unparse(ex[0].value) == "self.exit()"):
+        raise Untranslatable("BaseProgress.__exit__ is not `self.exit()`")
+    out.append("/-- `with` on a progress object calls exactly enter() / exit() "
+               "(BaseProgress.__enter__/__exit__) -/")
+    out.append("def withCallsEnterExit : Bool := true\n")
+    pdict = None
+    for st in tree.body:
+        if isinstance(st, ast.Assign) and len(st.targets) == 1 \
+                and isinstance(st.targets[0], ast.Name) and st.targets[0].id == "PROGRESS_DICT":
+            pdict = st.value
+    if not isinstance(pdict, ast.Dict):
+        raise Untranslatable("PROGRESS_DICT is not a dict literal")
+    kinds = []
+    for k, v in zip(pdict.keys, pdict.values):
+        if not (isinstance(k, ast.Constant) and isinstance(k.value, str)
+                and isinstance(v, ast.Name) and v.id in classes):
+            raise Untranslatable("PROGRESS_DICT entry")
+        kinds.append((k.value, v.id))
+    for key, cname in kinds:
+        cls = classes[cname]
+        bases = [classes[b.id] for b in cls.bases if isinstance(b, ast.Name) and b.id in classes]
+        pc = _PgClass("oqupy/util.py", cls, bases)
+        pc.init_ok()
+        ops = {}
+        for m in ("enter", "update", "exit"):
+            if m not in pc.methods:
+                raise Untranslatable("%s.%s missing" % (cname, m))
+            ops[m] = pc.block(pc.methods[m].body, m)
+        cbs = {o[0] for m in ops for o in ops[m] if o[0].startswith("newTimer")}
+        ps = []
+        if "newTimer .printStatus" in cbs:
+            # the pure-output callback: one op at its first statement
+            names = set()
+            for m in ("enter", "update", "exit"):
+                for n in ast.walk(pc.methods[m]):
+                    if isinstance(n, ast.Call) and isinstance(n.func, ast.Name) \
+                            and n.func.id == "Timer" and len(n.args) == 2 \
+                            and _pg_self_attr(n.args[1]) and n.args[1].attr != "update":
+                        names.add(n.args[1].attr)
+            if len(names) != 1:
+                raise Untranslatable("%s: several output callbacks %s" % (cname, sorted(names)))
+            cbfn = pc.methods[names.pop()]
+            ps = [("print", body_wo_doc(cbfn)[0].lineno)]
+        ident = key + "Protocol"
+        out.append("/-- oqupy/util.py:%d  class %s  (progress_type '%s') -/"
+                   % (cls.lineno, cname, key))
+        out.append("def %s : Protocol where" % ident)
+        for m, l in (("enter", ops["enter"]), ("update", ops["update"]), ("exit", ops["exit"]),
+                     ("printStatus", ps)):
+            out.append("  %s := %s" % (m, _pg_lean_list([("(.%s)" % o[0]) if " " in o[0]
+                                                          else "." + o[0] for o in l])))
+        out.append("def %sLines : ProtocolLines where" % key)
+        for m, l in (("enter", ops["enter"]), ("update", ops["update"]), ("exit", ops["exit"]),
+                     ("printStatus", ps)):
+            out.append("  %s := %s" % (m, _pg_lean_list([str(o[1]) for o in l])))
+        out.append("")
+    out.append("/-- PROGRESS_DICT -/")
+    out.append("def progressKinds : List (String × Protocol × ProtocolLines) := "
+               + _pg_lean_list(['("%s", %sProtocol, %sLines)' % (k, k, k) for k, _ in kinds]))
+    return "\n".join(out) + "\n"
+
+
+
+# ---------------------------------------------------------------------------
+# TimeExprs  (C15):  every arithmetic expression that computes a time handed to a user
+# callable, a reported time label, a duration or a float -> step conversion.
+#
+# The walk is by *name roles* (a time `T` moves with the time origin, a duration/field `D`
+# and an integer `I` do not) and by *sinks* (the place a value flows into fixes what it must
+# be).  Each collected expression becomes a `Site` (deep embedding `TExpr`, see
+# lean/OQuPyVerif/Model/TimeShift.lean) whose `role` comes from the SINK, never from the
+# expression -- so `t = step * dt` (start_time dropped) is still collected, with role `time`,
+# and its obligation `wt = some 1` fails.  A safety net refuses any arithmetic over a time
+# name that no sink accounts for.
+# ---------------------------------------------------------------------------
+
+EXTRA_IMPORTS["TimeExprs"] = "import OQuPyVerif.Model.TimeShift\n"
+
+TE_FILES = [
+    ("oqupy/system.py", None), ("oqupy/tempo.py", None), ("oqupy/pt_tempo.py", None),
+    ("oqupy/system_dynamics.py", None), ("oqupy/control.py", None), ("oqupy/pt_tebd.py", None),
+    ("oqupy/gradient.py", None), ("oqupy/util.py", ["get_number_of_steps"]),
+]
+
+# constructors probe the user's callables once at the fixed time 1.0 (input validation only;
+# the results never depend on it) -- those functions are not time expressions of a computation
+TE_SKIP_FUNCTIONS = lambda name: name.startswith("_check_")
+
+TE_ROLES = {
+    # times: move with the origin
+    "start_time": "T", "tmp_start_time": "T", "end_time": "T", "tmp_end_time": "T",
+    "t": "T", "t0": "T", "tau": "T", "time": "T", "times": "T", "times2": "T",
+    "control_times": "T",
+    # durations / field values: invariant reals
+    "dt": "D", "dt_": "D", "ratio": "D", "max_tau": "D", "field": "D", "field_derivative": "D",
+    # integers
+    "step": "I", "num_steps": "I", "start_step": "I", "index": "I", "index_start": "I",
+    "index_end": "I", "a": "I", "max_step": "I", "num_step": "I", "end_step": "I",
+}
+# per function: names that mean something else there (None = not a time-related name)
+TE_OVERRIDES = {
+    # the parsed `times` of compute_correlations_nt are integer step arrays
+    ("oqupy/system_dynamics.py", "compute_correlations_nt"): {"times": "I"},
+    # delay times 0..max_tau of the bath correlation function, not absolute times
+    ("oqupy/tempo.py", "_estimate_dt_dkmax_from_bath"): {"times": None},
+}
+
+# positional arguments of the callees through which times travel: role per position
+TE_CALLEES = {
+    "liouvillian": {1: ["T"], 4: ["T", "T", None, None]},
+    "_hamiltonian": {1: ["T"], 2: ["T", None]},
+    "gamma": {1: ["T"]},
+    "l_op": {1: ["T"]},
+    "field_eom": {3: ["T", None, None]},
+    "_linearised_hamiltonian": {4: ["T", "T", None, None]},
+    "_linearised_field": {4: ["T", "T", None, None]},
+    "get_propagators": {4: ["D", "T", None, None], 2: ["D", None]},
+    "compute_field": {5: ["T", "D", None, None, None]},
+    "get_number_of_steps": {3: ["T", "T", "D"]},
+    "_get_num_step": {2: ["I", "T"]},
+    "_parse_times": {4: [None, "I", "D", "T"]},
+}
+# keyword arguments (of any call) / dict keys that carry a time or the step length
+TE_KEYWORDS = {"start_time": "T", "end_time": "T", "dt": "D"}
+TE_KEYWORDS_OF = {"quad_vec": {"a": "T", "b": "T"}}
+# functions whose return value is a time / an invariant
+TE_RETURNS = {"_time": "T", "time": "T", "_linearised_field": "D"}
+# calls that hand their first argument through unchanged (conversions / validation)
+TE_PASSTHROUGH = {"float", "check_convert", "_check_time", "_parse_time"}
+# calls that return the time of a step
+TE_TIME_OF_STEP = {"_time", "time"}
+# assignments to a time-role name that only select / merge existing values (no arithmetic)
+TE_ALLOW_ASSIGN = {
+    ("oqupy/control.py", "Control.add_single", "times = np.append(self._control_times[pre_post], time)"),
+    ("oqupy/control.py", "Control.get_controls",
+     "times = np.array(self._control_times['pre'])[np.nonzero(a == step)]"),
+    ("oqupy/control.py", "Control.get_controls",
+     "times = np.array(self._control_times['post'])[np.nonzero(a == step)]"),
+    ("oqupy/system_dynamics.py", "compute_correlations_nt",
+     "times = _parse_times(ops_times[i], max_step, dt_, start_time)"),
+    ("oqupy/control.py", "Control.__init__",
+     "self._control_times = {'pre': np.array([]), 'post': np.array([])}"),
+    # guess_tempo_parameters samples the Hamiltonian on numpy's linspace between the two ends
+    ("oqupy/tempo.py", "_estimate_dt_from_system",
+     "times = np.linspace(start_time, end_time, num, endpoint=True)"),
+}
+
+
+def _te_norm(n):
+    return " ".join(ast.unparse(n).split())
+
+
+def _te_varname(e):
+    """normalised variable name of a leaf, or None"""
+    if isinstance(e, ast.Name):
+        return e.id
+    if isinstance(e, ast.Attribute):
+        ch = attr_chain(e)
+        return ch[-1].lstrip("_") if ch else None
+    if isinstance(e, ast.Subscript):
+        base = _te_varname(e.value)
+        if base is None:
+            return None
+        if isinstance(e.slice, ast.Constant) and isinstance(e.slice.value, int) \
+                and not isinstance(e.slice.value, bool):
+            return "%s_%d" % (base, e.slice.value)
+        if isinstance(e.slice, ast.Constant) and isinstance(e.slice.value, str):
+            return base          # self._control_times['pre']  (elementwise)
+        return None
+    return None
+
+
+def _te_callee(call):
+    f = call.func
+    if isinstance(f, ast.Name):
+        return f.id
+    if isinstance(f, ast.Attribute):
+        return f.attr
+    return None
+
+
+class _TEWalker:
+    """one expression  ->  Lean `TExpr` text + variable tables"""
+
+    def __init__(self, roles):
+        self.roles = roles
+        self.fvars, self.tmask, self.ivars = [], [], []
+
+    def role(self, name):
+        base = re.sub(r"_\d+$", "", name)
+        r = self.roles.get(name, self.roles.get(base))
+        return r
+
+    def fvar(self, name, is_time):
+        if name not in self.fvars:
+            self.fvars.append(name)
+            self.tmask.append(is_time)
+        return self.fvars.index(name)
+
+    def ivar(self, name):
+        if name not in self.ivars:
+            self.ivars.append(name)
+        return self.ivars.index(name)
+
+    def is_int(self, e):
+        if isinstance(e, ast.Constant):
+            return isinstance(e.value, int) and not isinstance(e.value, bool)
+        nm = _te_varname(e)
+        if nm is not None:
+            return self.role(nm) == "I"
+        if isinstance(e, ast.BinOp) and isinstance(e.op, (ast.Add, ast.Sub, ast.Mult)):
+            return self.is_int(e.left) and self.is_int(e.right)
+        if isinstance(e, ast.Call):
+            ch = attr_chain(e.func)
+            nm = ".".join(ch) if ch else None
+            if nm == "len" or (nm == "np.arange" and len(e.args) == 1 and not e.keywords):
+                return True
+        return False
+
+    def iexpr(self, e):
+        if isinstance(e, ast.Constant):
+            return "(.ilit (%d))" % e.value
+        nm = _te_varname(e)
+        if nm is not None:
+            return "(.ivar %d)" % self.ivar(nm)
+        if isinstance(e, ast.BinOp):
+            c = {ast.Add: "iadd", ast.Sub: "isub", ast.Mult: "imul"}[type(e.op)]
+            return "(.%s %s %s)" % (c, self.iexpr(e.left), self.iexpr(e.right))
+        if isinstance(e, ast.Call):
+            ch = attr_chain(e.func)
+            nm = ".".join(ch)
+            if nm == "len":
+                inner = _te_varname(e.args[0])
+                if inner is None:
+                    raise Untranslatable("len of an expression: " + _te_norm(e))
+                return "(.ivar %d)" % self.ivar("len_" + inner)
+            if nm == "np.arange":
+                return "(.ivar %d)" % self.ivar("k")     # one element of np.arange(n)
+        raise Untranslatable("integer expression " + _te_norm(e))
+
+    def texpr(self, e):
+        if self.is_int(e):
+            return "(.ofI %s)" % self.iexpr(e)
+        if isinstance(e, ast.Constant):
+            if isinstance(e.value, float):
+                p, q = e.value.as_integer_ratio()
+                return "(.lit (mkRat (%d) %d))" % (p, q)
+            raise Untranslatable("constant %r in a time expression" % (e.value,))
+        nm = _te_varname(e)
+        if nm is not None:
+            r = self.role(nm)
+            if r is None:
+                raise Untranslatable("no role known for variable %r in a time expression" % nm)
+            return "(.var %d)" % self.fvar(nm, r == "T")
+        if isinstance(e, ast.BinOp):
+            c = {ast.Add: "add", ast.Sub: "sub", ast.Mult: "mul", ast.Div: "div"}.get(type(e.op))
+            if c is None:
+                raise Untranslatable("operator in a time expression: " + _te_norm(e))
+            return "(.%s %s %s)" % (c, self.texpr(e.left), self.texpr(e.right))
+        if isinstance(e, ast.UnaryOp) and isinstance(e.op, ast.USub):
+            return "(.neg %s)" % self.texpr(e.operand)
+        if isinstance(e, ast.Call):
+            ch = attr_chain(e.func)
+            nm = ".".join(ch) if ch else ""
+            last = _te_callee(e)
+            if nm in ("np.round", "round") and len(e.args) == 1 and not e.keywords:
+                return "(.round %s)" % self.texpr(e.args[0])
+            if nm == "int" and len(e.args) == 1:
+                a = e.args[0]
+                if isinstance(a, ast.Call) and ".".join(attr_chain(a.func) or []) in ("np.round", "round"):
+                    return self.texpr(a)
+                return "(.trunc %s)" % self.texpr(a)
+            if last in TE_PASSTHROUGH and e.args:
+                return self.texpr(e.args[0])
+            if last in TE_TIME_OF_STEP and len(e.args) == 1 and not e.keywords \
+                    and isinstance(e.func, ast.Attribute) and _te_norm(e.func.value) == "self":
+                return "(.var %d)" % self.fvar("time_of_step", True)
+        raise Untranslatable("time expression " + _te_norm(e)[:160])
+
+
+def _te_is_arith(e):
+    if isinstance(e, ast.BinOp) and isinstance(e.op, (ast.Add, ast.Sub, ast.Mult, ast.Div)):
+        return True
+    if isinstance(e, ast.UnaryOp) and isinstance(e.op, ast.USub):
+        return True
+    return False
+
+
+def _te_is_wrapper(e):
+    if isinstance(e, ast.Call):
+        ch = attr_chain(e.func)
+        nm = ".".join(ch) if ch else ""
+        return nm in ("float", "int", "round", "np.round") and len(e.args) == 1
+    return False
+
+
+def _te_time_leaves(e, roles):
+    """does the arithmetic tree rooted at `e` have a time-valued leaf (not looking into the
+    arguments of opaque calls)?"""
+    if _te_is_arith(e):
+        kids = [e.left, e.right] if isinstance(e, ast.BinOp) else [e.operand]
+        return any(_te_time_leaves(k, roles) for k in kids)
+    if _te_is_wrapper(e):
+        return _te_time_leaves(e.args[0], roles)
+    nm = _te_varname(e)
+    if nm is not None:
+        base = re.sub(r"_\d+$", "", nm)
+        return roles.get(nm, roles.get(base)) == "T"
+    if isinstance(e, ast.Call) and _te_callee(e) in TE_TIME_OF_STEP \
+            and isinstance(e.func, ast.Attribute) and _te_norm(e.func.value) == "self":
+        return True
+    return False
+
+
+def _te_own_nodes(fn):
+    """all nodes of a function body, not descending into nested function definitions
+    (lambdas are descended into), with parents"""
+    out = []
+
+    def rec(node, parent):
+        out.append((node, parent))
+        for ch in ast.iter_child_nodes(node):
+            if isinstance(ch, (ast.FunctionDef, ast.AsyncFunctionDef, ast.ClassDef)):
+                continue
+            rec(ch, node)
+    for st in fn.body:
+        rec(st, fn)
+    return out
+
+
+def _te_functions(tree):
+    """(qualname, FunctionDef) for every function at any depth"""
+    out = []
+
+    def rec(node, prefix):
+        for ch in ast.iter_child_nodes(node):
+            if isinstance(ch, ast.ClassDef):
+                rec(ch, prefix + [ch.name])
+            elif isinstance(ch, (ast.FunctionDef, ast.AsyncFunctionDef)):
+                out.append((".".join(prefix + [ch.name]), ch))
+                rec(ch, prefix + [ch.name])
+            elif isinstance(ch, (ast.If, ast.For, ast.While, ast.With, ast.Try)):
+                rec(ch, prefix)
+    rec(tree, [])
+    return out
+
+
+def _te_scan(rel, qual, fn, inherited, sites):
+    roles = dict(TE_ROLES)
+    for (r, q), ov in TE_OVERRIDES.items():
+        if r == rel and (qual == q or qual.startswith(q + ".")):
+            roles.update(ov)
+    roles = {k: v for k, v in roles.items() if v is not None}
+    nodes = _te_own_nodes(fn)
+    covered = set()
+    found = []          # (sink, role, expr node, stmt node)
+
+    def add(sink, role, expr, stmt):
+        found.append((sink, role, expr, stmt))
+        for n in ast.walk(expr):
+            covered.add(id(n))
+
+    fname = qual.split(".")[-1]
+    for node, parent in nodes:
+        # --- assignments to a name that has a role ---------------------------------
+        if isinstance(node, ast.AugAssign):
+            nm = _te_varname(node.target)
+            if nm is not None and roles.get(nm) in ("T", "D"):
+                raise Untranslatable("%s:%d %s: augmented assignment to %s" % (rel, node.lineno, qual, nm))
+        if isinstance(node, (ast.Assign, ast.AnnAssign)):
+            tgts = node.targets if isinstance(node, ast.Assign) else [node.target]
+            if len(tgts) == 1 and node.value is not None:
+                nm = _te_varname(tgts[0])
+                if nm is not None and isinstance(tgts[0], (ast.Name, ast.Attribute)) and nm in roles:
+                    val = node.value
+                    if isinstance(val, ast.List) and len(val.elts) == 1:
+                        val = val.elts[0]
+                    w = _TEWalker(roles)
+                    try:
+                        w.texpr(val)
+                        add(nm, roles[nm], val, node)
+                    except Untranslatable as ex:
+                        if _te_time_leaves(val, roles) and _te_is_arith(val):
+                            raise Untranslatable("%s:%d %s: %s" % (rel, node.lineno, qual, ex))
+                        if (rel, qual, _te_norm(node)) in TE_ALLOW_ASSIGN:
+                            pass
+                        elif roles[nm] == "T":
+                            raise Untranslatable(
+                                "%s:%d %s: assignment to the time-related name `%s` is not "
+                                "understood: %s  (%s)" % (rel, node.lineno, qual, nm,
+                                                          _te_norm(node)[:120], ex))
+        # --- calls ---------------------------------------------------------------
+        if isinstance(node, ast.Call):
+            cal = _te_callee(node)
+            table = TE_CALLEES.get(cal)
+            if cal == "add" and isinstance(node.func, ast.Attribute) \
+                    and _te_norm(node.func.value).endswith("dynamics"):
+                table = {2: ["T", None], 3: ["T", None, None]}
+            if cal == "append" and isinstance(node.func, ast.Attribute) \
+                    and _te_norm(node.func.value) == "self._results['time']":
+                table = {1: ["T"]}
+            if table is not None and not any(isinstance(a, ast.Starred) for a in node.args):
+                pos = table.get(len(node.args))
+                if pos is None and node.args and not node.keywords:
+                    raise Untranslatable("%s:%d %s: call of %s with %d positional arguments"
+                                         % (rel, node.lineno, qual, cal, len(node.args)))
+                for i, r in enumerate(pos or []):
+                    if r is not None:
+                        add("%s_arg%d" % (cal.lstrip("_"), i), r, node.args[i], node)
+            kws = dict(TE_KEYWORDS)
+            kws.update(TE_KEYWORDS_OF.get(cal, {}))
+            for kw in node.keywords:
+                if kw.arg in kws and not (isinstance(kw.value, ast.Constant) and kw.value.value is None):
+                    add("%s_kw_%s" % ((cal or "call").lstrip("_"), kw.arg), kws[kw.arg], kw.value, node)
+        # --- dict literals that carry the parameters on -------------------------------
+        if isinstance(node, ast.Dict):
+            for k, v in zip(node.keys, node.values):
+                if isinstance(k, ast.Constant) and k.value in TE_KEYWORDS:
+                    add("dict_%s" % k.value, TE_KEYWORDS[k.value], v, node)
+        # --- return values of the time functions -----------------------------------------
+        if isinstance(node, ast.Return) and node.value is not None and fname in TE_RETURNS:
+            if fname != "time" or qual == "PtTebd.time":
+                add("ret", TE_RETURNS[fname], node.value, node)
+        # --- comparisons of two times ----------------------------------------------------
+        if isinstance(node, ast.Compare) and len(node.ops) == 1:
+            l, r = node.left, node.comparators[0]
+            if _te_time_leaves(l, roles) and _te_time_leaves(r, roles):
+                diff = ast.BinOp(left=l, op=ast.Sub(), right=r)
+                ast.copy_location(diff, node)
+                add("cmp", "D", diff, node)
+    # --- safety net -----------------------------------------------------------------
+    for node, parent in nodes:
+        if _te_is_arith(node) and not (_te_is_arith(parent) or _te_is_wrapper(parent)):
+            if _te_time_leaves(node, roles) and id(node) not in covered:
+                raise Untranslatable(
+                    "%s:%d %s: arithmetic over a time that no known sink accounts for: %s"
+                    % (rel, node.lineno, qual, _te_norm(node)[:160]))
+    # --- emit ---------------------------------------------------------------------
+    for sink, role, expr, stmt in found:
+        w = _TEWalker(roles)
+        try:
+            term = w.texpr(expr)
+        except Untranslatable as ex:
+            raise Untranslatable("%s:%d %s: %s" % (rel, getattr(expr, "lineno", stmt.lineno), qual, ex))
+        sites.append(dict(rel=rel, qual=qual, line=getattr(expr, "lineno", stmt.lineno), sink=sink,
+                          role="time" if role == "T" else "inv", src=_te_norm(expr),
+                          stmt=_te_norm(stmt)[:200], fvars=w.fvars, tmask=w.tmask, ivars=w.ivars,
+                          term=term))
+
+
+def _te_mentions_time(e, roles):
+    for n in ast.walk(e):
+        nm = _te_varname(n) if isinstance(n, (ast.Name, ast.Attribute)) else None
+        if nm is not None and roles.get(nm) == "T":
+            return True
+    return False
+
+
+def _te_lean_ident(s):
+    return re.sub(r"[^A-Za-z0-9_]", "_", s)
+
+
+# sites that the theorems / the correspondence refer to by name: they must exist
+TE_REQUIRED = [
+    "TimeDependentSystem_get_propagators_propagators__t_1",
+    "TimeDependentSystem_get_propagators_propagators__liouvillian_arg0_1",
+    "TimeDependentSystem_get_propagators_propagators__liouvillian_arg0_2",
+    "TimeDependentSystemWithField_get_propagators_propagators__t_1",
+    "Tempo__time__ret", "MeanFieldTempo__time__ret", "PtTebd_time__ret",
+    "MeanFieldTempo__compute_field__field_eom_arg0_2",
+    "Control_get_controls__a_1", "Control_get_controls__a_2",
+    "_parse_times__index", "_parse_times__index_start", "_parse_times__index_end",
+    "compute_correlations_nt__times2",
+    "compute_dynamics_with_field__t",
+    "get_number_of_steps__ratio",
+]
+
+
+@fragment("TimeExprs")
+def frag_timeexprs(src):
+    sites = []
+    for rel, only in TE_FILES:
+        tree = src.tree(rel)
+        for qual, fn in _te_functions(tree):
+            if only is not None and qual not in only:
+                continue
+            if TE_SKIP_FUNCTIONS(qual.split(".")[-1]) or any(
+                    TE_SKIP_FUNCTIONS(p) for p in qual.split(".")):
+                continue
+            _te_scan(rel, qual, fn, None, sites)
+    # names: <qual>__<sink>[_n]
+    count = {}
+    for s in sites:
+        base = _te_lean_ident(s["qual"]) + "__" + _te_lean_ident(s["sink"])
+        count[base] = count.get(base, 0) + 1
+    seen = {}
+    for s in sites:
+        base = _te_lean_ident(s["qual"]) + "__" + _te_lean_ident(s["sink"])
+        if count[base] > 1:
+            seen[base] = seen.get(base, 0) + 1
+            s["name"] = "%s_%d" % (base, seen[base])
+        else:
+            s["name"] = base
+    names = [s["name"] for s in sites]
+    missing = [n for n in TE_REQUIRED if n not in names]
+    if missing:
+        raise Untranslatable("expected time expressions are no longer found: %s" % ", ".join(missing))
+    out = ["open OQuPyVerif.TimeShift\n"]
+    lstr = lambda x: '"' + x.replace("\\", "\\\\").replace('"', '\\"') + '"'
+    for s in sites:
+        out.append(
+            "/-- %s:%d  %s  [%s -> %s]:  %s -/\n"
+            "def %s : Site :=\n"
+            "  { name := %s, file := %s, line := %d,\n"
+            "    src := %s,\n"
+            "    sink := %s,\n"
+            "    fvars := [%s], tmask := [%s], ivars := [%s], role := .%s,\n"
+            "    expr := %s }\n"
+            % (s["rel"], s["line"], s["qual"], s["sink"], s["role"], s["src"].replace("-/", "- /"),
+               "s_" + s["name"], lstr(s["name"]), lstr(s["rel"]), s["line"], lstr(s["src"]),
+               lstr(s["sink"] + " in " + s["qual"]),
+               ", ".join(lstr(v) for v in s["fvars"]),
+               ", ".join("true" if b else "false" for b in s["tmask"]),
+               ", ".join(lstr(v) for v in s["ivars"]), s["role"], s["term"]))
+    out.append("/-- every time expression found in %s -/\ndef sites : List Site :=\n  [%s]\n"
+               % (", ".join(r for r, _ in TE_FILES),
+                  ",\n   ".join("s_" + s["name"] for s in sites)))
+    return "\n".join(out)
+# end of TimeExprs
+
+
+# ---------------------------------------------------------------------------
+# GradWiring  (C08):  tensor-network wiring of the adjoint gradient
+# ---------------------------------------------------------------------------
+#
+# Grammar understood (anything else -> Untranslatable):
+#  * `_apply_system_superoperator`: the five wiring statements of its body;
+#  * `_apply_pt_mpos`: one loop over the environments
+#        for i, pt_mpo in enumerate(pt_mpos):                       (list order)
+#    or  <v> = list(enumerate(pt_mpos)); if reverse: <v>.reverse(); for i, pt_mpo in <v>:
+#    whose body is the seven wiring statements (axis numbers free), optionally followed by
+#        if reverse: current_node.reorder_edges(current_edges)
+#  * `_get_pt_mpos_backprop`: a loop of `pt_mpo = np.swapaxes(pt_mpo, a, b)` statements;
+#  * `_apply_derivative_pt_mpos`: the statement sequence of the present source (axis numbers free);
+#  * `compute_gradient_and_dynamics`: forward loop, first adjoint tensor, backward loop as
+#    sequences of known statements (each mapped to an op tag; unknown statement -> error);
+#  * `_chain_rule` / `state_gradient`: the four edge connections of `combine_derivs`, which
+#    propagator / derivative goes (transposed or not) into which slot for the entries 2i, 2i+1,
+#    and which results `state_gradient` returns under which key.
+
+GW_PREAMBLE = '''/-- roles of the four axes of an MPO tensor in one `_apply_pt_mpos`-style contraction:
+    `bondIn` is joined to the current bond leg, `sysIn` to the current system leg,
+    `bondOut` / `sysOut` become the new bond / system leg -/
+structure MpoAxes where
+  bondIn : Nat
+  bondOut : Nat
+  sysIn : Nat
+  sysOut : Nat
+  deriving DecidableEq, Repr
+
+/-- statements of the forward loop, of the construction of one adjoint tensor, and of the
+    backward loop of `compute_gradient_and_dynamics`; integer arguments are offsets relative
+    to the loop variable `step` (for `firstAdjoint`: relative to `num_steps`) -/
+inductive GOp where
+  | getControls | applyPre | breakIfLast | record | progress | applyPost
+  | storeForward            -- forwardprop_derivs_list.append(copy of current_node)
+  | getPropagators | getMpos | storeMpos
+  | applyP1 | applyMpo | applyP2
+  | recordFinal
+  | getMposBackprop         -- pt_mpos = _get_pt_mpos_backprop(mpo_list, step)
+  | applyP2T | applyMpoBack | applyP1T | applyPostT | applyPreT
+  | useForward (offset : Int)   -- forwardprop_tensor = forwardprop_derivs_list[step + offset]
+  | useMpos (offset : Int)      -- pt_mpos = mpo_list[step + offset]
+  | copyBack                -- backprop_tensor = copy of current_node
+  | applyDerivMpos          -- _apply_derivative_pt_mpos(forwardprop_tensor, fwd_edges, pt_mpos)
+  | joinBonds               -- for i: fwd_edges[i] ^ backprop_tensor[i]
+  | contractForwardBack     -- deriv = deriv_forwardprop_tensor @ backprop_tensor
+  | appendDeriv
+  deriving DecidableEq, Repr
+
+/-- which array a slot of `combine_derivs` receives in `_chain_rule` -/
+inductive PropArg where
+  | firstProp | secondProp | firstDeriv | secondDeriv
+  deriving DecidableEq, Repr
+'''
+
+
+def _gw_norm(s):
+    return " ".join(ast.unparse(s).split())
+
+
+def _gw_body(fn):
+    return _cc_strip(fn.body)
+
+
+def _gw_int_sub(text, prefix):
+    """`<prefix>[<int>]` -> int"""
+    if not (text.startswith(prefix + "[") and text.endswith("]")):
+        raise Untranslatable("expected %s[<axis>], found %s" % (prefix, text))
+    try:
+        return int(text[len(prefix) + 1:-1])
+    except ValueError:
+        raise Untranslatable("axis of %s is not an integer constant" % text)
+
+
+def _gw_axes(lines, where, node="pt_mpo_node", bond_edge="current_edges[i]"):
+    """the seven wiring statements of one MPO application"""
+    if len(lines) != 7:
+        raise Untranslatable("%s: expected 7 wiring statements, found %d" % (where, len(lines)))
+    want_fixed = {4: "current_node = current_node @ %s" % node,
+                  5: "%s = new_bond_edge" % bond_edge,
+                  6: "current_edges[-1] = new_sys_edge"}
+    for k, w in want_fixed.items():
+        if lines[k] != w:
+            raise Untranslatable("%s: statement %r, expected %r" % (where, lines[k], w))
+    pre = "new_bond_edge = "
+    if not lines[0].startswith(pre) or not lines[1].startswith("new_sys_edge = "):
+        raise Untranslatable("%s: new edge selection" % where)
+    bond_out = _gw_int_sub(lines[0][len(pre):], node)
+    sys_out = _gw_int_sub(lines[1][len("new_sys_edge = "):], node)
+    pre = bond_edge + " ^ "
+    if not lines[2].startswith(pre) or not lines[3].startswith("current_edges[-1] ^ "):
+        raise Untranslatable("%s: edge connections" % where)
+    bond_in = _gw_int_sub(lines[2][len(pre):], node)
+    sys_in = _gw_int_sub(lines[3][len("current_edges[-1] ^ "):], node)
+    if sorted([bond_in, bond_out, sys_in, sys_out]) != [0, 1, 2, 3]:
+        raise Untranslatable("%s: the four axes are not a permutation of 0..3" % where)
+    return bond_in, bond_out, sys_in, sys_out
+
+
+def _gw_axes_lean(ax):
+    return "{ bondIn := %d, bondOut := %d, sysIn := %d, sysOut := %d }" % ax
+
+
+def _gw_sysop(src, out):
+    rel = "oqupy/system_dynamics.py"
+    fn = src.function(rel, "_apply_system_superoperator")
+    texts = [_gw_norm(s) for s in _gw_body(fn)]
+    if len(texts) != 7 or texts[0] != "if sup_op is None: return (current_node, current_edges)" \
+            or texts[1] not in ("sup_op_node = tn.Node(sup_op.T)", "sup_op_node = tn.Node(sup_op)") \
+            or texts[4] != "current_node = current_node @ sup_op_node" \
+            or texts[5] != "current_edges[-1] = new_sys_edge" \
+            or texts[6] != "return (current_node, current_edges)":
+        raise Untranslatable("_apply_system_superoperator: unexpected shape %r" % texts)
+    m1 = {"current_edges[-1] ^ sup_op_node[0]": 0, "current_edges[-1] ^ sup_op_node[1]": 1}.get(texts[2])
+    m2 = {"new_sys_edge = sup_op_node[0]": 0, "new_sys_edge = sup_op_node[1]": 1}.get(texts[3])
+    if m1 is None or m2 is None or m1 == m2:
+        raise Untranslatable("_apply_system_superoperator: edge wiring")
+    transposed = texts[1].endswith(".T)")
+    # the node holds N = sup_op.T (or sup_op); new[s'] = sum_s cur[s] * N[.., ..] with the
+    # contracted index of N in position m1:  acts as the matrix `sup_op` iff exactly one of
+    # (transposed, contract-is-axis-1) holds
+    acts_as_matrix = (transposed and m1 == 0) or ((not transposed) and m1 == 1)
+    out.append("/-- %s:%d  _apply_system_superoperator(node, edges, M): the new state leg is\n"
+               "    `new[s'] = Σ_s M[s', s] * cur[s]` (true) or `Σ_s M[s, s'] * cur[s]` (false) -/\n"
+               "def sysOpActsAsMatrix : Bool := %s\n"
+               % (rel, fn.lineno, "true" if acts_as_matrix else "false"))
+
+
+def _gw_apply_pt_mpos(src, out):
+    rel = "oqupy/system_dynamics.py"
+    fn = src.function(rel, "_apply_pt_mpos")
+    params = [a.arg for a in fn.args.args]
+    body = _gw_body(fn)
+    texts = [_gw_norm(s) for s in body]
+    if params == ["current_node", "current_edges", "pt_mpos"]:
+        has_reverse = False
+    elif params == ["current_node", "current_edges", "pt_mpos", "reverse"]:
+        d = fn.args.defaults
+        if len(d) != 1 or not isinstance(d[0], ast.Constant) or d[0].value is not False:
+            raise Untranslatable("_apply_pt_mpos: `reverse` must default to False")
+        has_reverse = True
+    else:
+        raise Untranslatable("_apply_pt_mpos: parameters %r" % params)
+    if not texts or texts[-1] != "return (current_node, current_edges)":
+        raise Untranslatable("_apply_pt_mpos: does not end in `return current_node, current_edges`")
+    body, texts = body[:-1], texts[:-1]
+    reorders = False
+    if has_reverse and texts and texts[-1] == "if reverse: current_node.reorder_edges(current_edges)":
+        reorders = True
+        body, texts = body[:-1], texts[:-1]
+    if not has_reverse:
+        if len(body) != 1:
+            raise Untranslatable("_apply_pt_mpos: expected a single loop, found %r" % texts)
+        loop = body[0]
+        if not (isinstance(loop, ast.For) and _gw_norm(loop.target) == "(i, pt_mpo)"
+                and _gw_norm(loop.iter) == "enumerate(pt_mpos)" and not loop.orelse):
+            raise Untranslatable("_apply_pt_mpos: loop header")
+    else:
+        if len(body) != 3 or not isinstance(body[0], ast.Assign) or len(body[0].targets) != 1 \
+                or not isinstance(body[0].targets[0], ast.Name) \
+                or _gw_norm(body[0].value) != "list(enumerate(pt_mpos))":
+            raise Untranslatable("_apply_pt_mpos: expected `<v> = list(enumerate(pt_mpos))`")
+        v = body[0].targets[0].id
+        if texts[1] != "if reverse: %s.reverse()" % v:
+            raise Untranslatable("_apply_pt_mpos: expected `if reverse: %s.reverse()`" % v)
+        loop = body[2]
+        if not (isinstance(loop, ast.For) and _gw_norm(loop.target) == "(i, pt_mpo)"
+                and _gw_norm(loop.iter) == v and not loop.orelse):
+            raise Untranslatable("_apply_pt_mpos: loop header")
+    lb = [_gw_norm(s) for s in _cc_strip(loop.body)]
+    if lb[:2] != ["if pt_mpo is None: continue", "pt_mpo_node = tn.Node(pt_mpo)"]:
+        raise Untranslatable("_apply_pt_mpos: loop body head %r" % lb[:2])
+    ax = _gw_axes(lb[2:], "_apply_pt_mpos")
+    out.append("/-- %s:%d  _apply_pt_mpos: axis roles of each MPO tensor; the environments are visited\n"
+               "    in list order, or in reversed list order when called with `reverse=True` -/\n"
+               "def applyAxes : MpoAxes := %s\n" % (rel, fn.lineno, _gw_axes_lean(ax)))
+    out.append("/-- `_apply_pt_mpos` has a `reverse` option (default False) -/\n"
+               "def applyHasReverse : Bool := %s\n" % ("true" if has_reverse else "false"))
+    out.append("/-- with `reverse=True` the node's axes are put back into the order of `current_edges`\n"
+               "    (bond legs in list order, then the system leg) before returning -/\n"
+               "def applyReverseReorders : Bool := %s\n" % ("true" if reorders else "false"))
+    return has_reverse
+
+
+def _gw_backprop_mpos(src, out):
+    rel = "oqupy/system_dynamics.py"
+    fn = src.function(rel, "_get_pt_mpos_backprop")
+    if [a.arg for a in fn.args.args] != ["mpo_list", "step"]:
+        raise Untranslatable("_get_pt_mpos_backprop: parameters")
+    body = _gw_body(fn)
+    texts = [_gw_norm(s) for s in body]
+    if len(body) != 4 or texts[0] != "pt_mpos = mpo_list[step]" or texts[1] != "pt_mpos_rev = []" \
+            or texts[3] != "return pt_mpos_rev" or not isinstance(body[2], ast.For) \
+            or _gw_norm(body[2].target) != "pt_mpo" or _gw_norm(body[2].iter) != "pt_mpos" \
+            or body[2].orelse:
+        raise Untranslatable("_get_pt_mpos_backprop: unexpected shape %r" % texts)
+    lb = [_gw_norm(s) for s in _cc_strip(body[2].body)]
+    if not lb or lb[-1] != "pt_mpos_rev.append(pt_mpo)":
+        raise Untranslatable("_get_pt_mpos_backprop: loop does not append pt_mpo last")
+    swaps = []
+    for t in lb[:-1]:
+        pre = "pt_mpo = np.swapaxes(pt_mpo, "
+        if not (t.startswith(pre) and t.endswith(")")):
+            raise Untranslatable("_get_pt_mpos_backprop: unexpected statement " + t)
+        try:
+            a, b = [int(x) for x in t[len(pre):-1].split(",")]
+        except ValueError:
+            raise Untranslatable("_get_pt_mpos_backprop: swapaxes arguments in " + t)
+        if not (0 <= a <= 3 and 0 <= b <= 3):
+            raise Untranslatable("_get_pt_mpos_backprop: axis out of range in " + t)
+        swaps.append((a, b))
+    out.append("/-- %s:%d  _get_pt_mpos_backprop: the MPO tensors stored for `step` (list order kept),\n"
+               "    each with these `np.swapaxes` applied in this order -/\n"
+               "def backSwaps : List (Nat × Nat) := [%s]\n"
+               % (rel, fn.lineno, ", ".join("(%d, %d)" % s for s in swaps)))
+
+
+def _gw_derivative_mpos(src, out):
+    rel = "oqupy/system_dynamics.py"
+    fn = src.function(rel, "_apply_derivative_pt_mpos")
+    if [a.arg for a in fn.args.args] != ["current_node", "current_edges", "pt_mpos"]:
+        raise Untranslatable("_apply_derivative_pt_mpos: parameters")
+    body = [s for s in _gw_body(fn)
+            if not (isinstance(s, ast.Assign) and isinstance(s.targets[0], ast.Attribute)
+                    and s.targets[0].attr == "name")]          # edge names have no effect
+    texts = [_gw_norm(s) for s in body]
+    if len(texts) != 15:
+        raise Untranslatable("_apply_derivative_pt_mpos: %d statements, expected 15: %r"
+                             % (len(texts), texts))
+    if texts[0] != "prev_prop_edge = current_edges[-1]" or texts[1] != "pt_mpo_node = tn.Node(pt_mpos[0])":
+        raise Untranslatable("_apply_derivative_pt_mpos: head")
+    first = {}
+    for t, key in zip(texts[2:5], ("pre_mpo_edge", "new_bond_edge", "post_mpo_edge")):
+        if not t.startswith(key + " = "):
+            raise Untranslatable("_apply_derivative_pt_mpos: expected assignment to %s, found %s" % (key, t))
+        first[key] = _gw_int_sub(t[len(key) + 3:], "pt_mpo_node")
+    if not texts[5].startswith("current_edges[0] ^ "):
+        raise Untranslatable("_apply_derivative_pt_mpos: first bond connection")
+    first_in = _gw_int_sub(texts[5][len("current_edges[0] ^ "):], "pt_mpo_node")
+    if texts[6:9] != ["current_node = current_node @ pt_mpo_node", "current_edges = current_node[:]",
+                      "bond_edges = [new_bond_edge]"]:
+        raise Untranslatable("_apply_derivative_pt_mpos: after the first tensor: %r" % texts[6:9])
+    if sorted([first_in, first["new_bond_edge"], first["pre_mpo_edge"], first["post_mpo_edge"]]) != [0, 1, 2, 3]:
+        raise Untranslatable("_apply_derivative_pt_mpos: axes of the first tensor")
+    loop = body[9]
+    if not (isinstance(loop, ast.For) and _gw_norm(loop.target) == "(i, pt_mpo)"
+            and _gw_norm(loop.iter) == "enumerate(pt_mpos[1:])" and not loop.orelse):
+        raise Untranslatable("_apply_derivative_pt_mpos: loop over the remaining environments")
+    lb = [_gw_norm(s) for s in _cc_strip(loop.body)
+          if not (isinstance(s, ast.Assign) and isinstance(s.targets[0], ast.Attribute)
+                  and s.targets[0].attr == "name")]
+    if len(lb) != 9 or lb[0] != "if pt_mpo is None: continue" or lb[1] != "pt_mpo_node = tn.Node(pt_mpo)" \
+            or lb[3] != "bond_edges.append(new_bond_edge)" \
+            or lb[7] != "current_node = current_node @ pt_mpo_node" \
+            or lb[8] != "current_edges = current_node[:]":
+        raise Untranslatable("_apply_derivative_pt_mpos: loop body %r" % lb)
+    if not lb[2].startswith("new_bond_edge = ") or not lb[4].startswith("post_mpo_edge = ") \
+            or not lb[5].startswith("current_edges[0] ^ ") or not lb[6].startswith("current_edges[-1] ^ "):
+        raise Untranslatable("_apply_derivative_pt_mpos: loop wiring %r" % lb)
+    rest = (_gw_int_sub(lb[5][len("current_edges[0] ^ "):], "pt_mpo_node"),
+            _gw_int_sub(lb[2][len("new_bond_edge = "):], "pt_mpo_node"),
+            _gw_int_sub(lb[6][len("current_edges[-1] ^ "):], "pt_mpo_node"),
+            _gw_int_sub(lb[4][len("post_mpo_edge = "):], "pt_mpo_node"))
+    if sorted(rest) != [0, 1, 2, 3]:
+        raise Untranslatable("_apply_derivative_pt_mpos: axes of the remaining tensors")
+    if texts[10:] != ["current_edges[-1] = post_mpo_edge", "current_edges[-2] = pre_mpo_edge",
+                      "current_edges[-3] = prev_prop_edge",
+                      "for i, _ in enumerate(pt_mpos): current_edges[i] = bond_edges[i]",
+                      "return (current_node, current_edges)"]:
+        raise Untranslatable("_apply_derivative_pt_mpos: tail %r" % texts[10:])
+    out.append("/-- %s:%d  _apply_derivative_pt_mpos, first environment: `bondIn` is joined to the\n"
+               "    forward tensor's first bond leg; `sysIn` (the leg towards the first half-step\n"
+               "    propagator) is left OPEN, as is the forward tensor's own system leg -/\n"
+               "def derivFirstAxes : MpoAxes := %s\n"
+               % (rel, fn.lineno, _gw_axes_lean((first_in, first["new_bond_edge"],
+                                                 first["pre_mpo_edge"], first["post_mpo_edge"]))))
+    out.append("/-- _apply_derivative_pt_mpos, remaining environments (list order): `bondIn` is joined to\n"
+               "    the first remaining axis of the running node (the next environment's bond leg),\n"
+               "    `sysIn` to its last axis (the open `sysOut` of the previous environment) -/\n"
+               "def derivRestAxes : MpoAxes := %s\n" % _gw_axes_lean(rest))
+    out.append("/-- returned edge list: new bond legs (list order), then from the end: post-MPO leg,\n"
+               "    pre-MPO leg, the forward tensor's system leg -/\n"
+               "def derivEdgesTail : List String := [\"prev_prop_edge\", \"pre_mpo_edge\", \"post_mpo_edge\"]\n")
+
+
+_GW_SYSOP = "current_node, current_edges = _apply_system_superoperator(current_node, current_edges, %s)"
+
+
+def _gw_controls_closure(fn, qual):
+    inner = [s for s in fn.body if isinstance(s, ast.FunctionDef) and s.name == "controls"]
+    if len(inner) != 1 or [_gw_norm(s) for s in _cc_strip(inner[0].body)] != \
+            ["return control.get_controls(step, dt=dt, start_time=start_time)"] \
+            or [a.arg for a in inner[0].args.args] != ["step"]:
+        raise Untranslatable("%s: the `controls` closure" % qual)
+
+
+def _gw_adjoint_block(texts, where, fwd_index, mpo_index_after_copy):
+    """statements building one adjoint tensor; returns (ops, rest)"""
+    ops = []
+    i = 0
+
+    def take(prefix_or_text, exact=True):
+        nonlocal i
+        if i >= len(texts):
+            raise Untranslatable("%s: statements end early (expected %s)" % (where, prefix_or_text))
+        t = texts[i]
+        ok = (t == prefix_or_text) if exact else t.startswith(prefix_or_text)
+        if not ok:
+            raise Untranslatable("%s: found %r, expected %r" % (where, t, prefix_or_text))
+        i += 1
+        return t
+
+    def offset(t, prefix, var):
+        inner = t[len(prefix):-1].replace(" ", "")
+        if inner == var:
+            return 0
+        if inner.startswith(var + "-") and inner[len(var) + 1:].isdigit():
+            return -int(inner[len(var) + 1:])
+        if inner.startswith(var + "+") and inner[len(var) + 1:].isdigit():
+            return int(inner[len(var) + 1:])
+        raise Untranslatable("%s: index %r is not %s +/- constant" % (where, inner, var))
+
+    var = fwd_index
+    t = take("forwardprop_tensor = forwardprop_derivs_list[", exact=False)
+    ops.append(".useForward (%d)" % offset(t, "forwardprop_tensor = forwardprop_derivs_list[", var))
+    # the copy of the backward node and the selection of the MPOs come in either order
+    for _ in range(2):
+        if i < len(texts) and texts[i] == "backprop_tensor = tn.replicate_nodes([current_node])[0]":
+            i += 1
+            ops.append(".copyBack")
+        elif i < len(texts) and texts[i].startswith("pt_mpos = mpo_list["):
+            ops.append(".useMpos (%d)" % offset(texts[i], "pt_mpos = mpo_list[", var))
+            i += 1
+        else:
+            raise Untranslatable("%s: expected the backward copy / MPO selection, found %r"
+                                 % (where, texts[i] if i < len(texts) else None))
+    take("fwd_edges = forwardprop_tensor[:]")
+    take("deriv_forwardprop_tensor, fwd_edges = _apply_derivative_pt_mpos(forwardprop_tensor, "
+         "fwd_edges, pt_mpos)")
+    ops.append(".applyDerivMpos")
+    take("for i, _ in enumerate(pt_mpos): fwd_edges[i] ^ backprop_tensor[i]")
+    ops.append(".joinBonds")
+    take("deriv = deriv_forwardprop_tensor @ backprop_tensor")
+    ops.append(".contractForwardBack")
+    t = texts[i] if i < len(texts) else ""
+    if t not in ("combined_deriv_list.append(tn.replicate_nodes([deriv])[0])",
+                 "combined_deriv_list.append(deriv.get_tensor())",
+                 "combined_deriv_list.append(deriv.tensor)"):
+        raise Untranslatable("%s: expected the adjoint tensor to be appended, found %r" % (where, t))
+    i += 1
+    ops.append(".appendDeriv")
+    return ops, texts[i:]
+
+
+def _gw_gradient_loops(src, out):
+    rel = "oqupy/gradient.py"
+    qual = "compute_gradient_and_dynamics"
+    fn = src.function(rel, qual)
+    _gw_controls_closure(fn, qual)
+    top = _cc_strip(fn.body)
+    loops = [(k, s) for k, s in enumerate(top) if isinstance(s, ast.For)
+             and _gw_norm(s.target) in ("step", "(loop, step)")]
+    if len(loops) != 2:
+        raise Untranslatable("%s: expected a forward and a backward loop, found %d loops"
+                             % (qual, len(loops)))
+    (k1, fwd), (k2, bwd) = loops
+    # ---- forward loop
+    if _gw_norm(fwd.target) != "step" or _gw_norm(fwd.iter) != "range(num_steps + 1)" or fwd.orelse:
+        raise Untranslatable("%s: forward loop header" % qual)
+    simple = {
+        "pre_measurement_control, post_measurement_control = controls(step)": "getControls",
+        "if pre_measurement_control is not None: " + _GW_SYSOP % "pre_measurement_control": "applyPre",
+        "if step == num_steps: break": "breakIfLast",
+        "if record_all: caps = _get_caps(process_tensors, step) "
+        "state_tensor = _apply_caps(current_node, current_edges, caps) "
+        "state = state_tensor.reshape(hs_dim, hs_dim) states.append(state)": "record",
+        "prog_bar.update(step)": "progress",
+        "if post_measurement_control is not None: " + _GW_SYSOP % "post_measurement_control": "applyPost",
+        "forwardprop_derivs_list.append(tn.replicate_nodes([current_node])[0])": "storeForward",
+        "first_half_prop, second_half_prop = propagators(step)": "getPropagators",
+        "pt_mpos = _get_pt_mpos(process_tensors, step)": "getMpos",
+        "mpo_list.append(pt_mpos)": "storeMpos",
+        _GW_SYSOP % "first_half_prop": "applyP1",
+        "current_node, current_edges = _apply_pt_mpos(current_node, current_edges, pt_mpos)": "applyMpo",
+        _GW_SYSOP % "second_half_prop": "applyP2",
+    }
+    tags = []
+    for s in _cc_strip(fwd.body):
+        t = _gw_norm(s)
+        if t not in simple:
+            raise Untranslatable("%s forward loop: unexpected statement: %s" % (qual, t[:140]))
+        tags.append(simple[t])
+    out.append("/-- %s:%d  %s, forward loop `for step in range(num_steps + 1)` (statement order);\n"
+               "    `_apply_pt_mpos` is called without `reverse`: environments in list order -/\n"
+               "def fwdLoop : List GOp := [%s]\n"
+               % (rel, fwd.lineno, qual, ", ".join("." + t for t in tags)))
+    # initial tensor of the forward pass
+    pre = [_gw_norm(s) for s in top[:k1]]
+    want_init = ["initial_ndarray = initial_state.reshape(hs_dim ** 2)",
+                 "initial_ndarray.shape = tuple([1] * num_envs + [hs_dim ** 2])",
+                 "current_node = tn.Node(initial_ndarray)", "current_edges = current_node[:]"]
+    if [t for t in pre if t in want_init] != want_init:
+        raise Untranslatable("%s: initial tensor of the forward pass" % qual)
+    if "propagators = system.get_propagators(dt, parameters)" not in pre:
+        raise Untranslatable("%s: propagators are not system.get_propagators(dt, parameters)" % qual)
+    # ---- between the loops
+    mid = [_gw_norm(s) for s in top[k1 + 1:k2] if not _gw_norm(s).startswith("prog_bar")
+           and not _gw_norm(s).startswith("title = ")]
+    want = ["caps = _get_caps(process_tensors, num_steps)",
+            "state_tensor = _apply_caps(current_node, current_edges, caps)",
+            "final_state = state_tensor.reshape(hs_dim, hs_dim)",
+            "states.append(final_state)"]
+    if mid[:4] != want:
+        raise Untranslatable("%s: read-out of the final state: %r" % (qual, mid[:4]))
+    mid = mid[4:]
+    if not mid or not mid[0].startswith("if record_all: times ="):
+        raise Untranslatable("%s: time labels" % qual)
+    if mid[1] != "dynamics = Dynamics(times=list(times), states=states)":
+        raise Untranslatable("%s: Dynamics object" % qual)
+    mid = mid[2:]
+    want = ["if callable(target_derivative): target_derivative = target_derivative(states[-1])",
+            "target_ndarray = target_derivative",
+            "target_ndarray = target_ndarray.reshape(hs_dim ** 2)",
+            "target_ndarray.shape = tuple([1] * num_envs + [hs_dim ** 2])",
+            "current_node = tn.Node(target_ndarray)",
+            "current_edges = current_node[:]",
+            "combined_deriv_list = []",
+            "pre_measurement_control, post_measurement_control = controls(num_steps)",
+            "if pre_measurement_control is not None: " + _GW_SYSOP % "pre_measurement_control.T"]
+    if mid[:len(want)] != want:
+        raise Untranslatable("%s: initial tensor of the backward pass: %r" % (qual, mid[:len(want)]))
+    ops, rest = _gw_adjoint_block(mid[len(want):], qual + " (last step)", "num_steps", None)
+    if rest:
+        raise Untranslatable("%s: unexpected statements before the backward loop: %r" % (qual, rest))
+    out.append("/-- %s, between the loops: the final state is read out with the caps of `num_steps`;\n"
+               "    the backward tensor starts as the target derivative (bond legs of dimension 1) with\n"
+               "    the transposed pre-measurement control of `num_steps`; then the adjoint tensor of the\n"
+               "    LAST step is built (offsets relative to `num_steps`) -/\n"
+               "def firstAdjoint : List GOp := [.recordFinal, .applyPreT, %s]\n" % (qual, ", ".join(ops)))
+    # ---- backward loop
+    if _gw_norm(bwd.target) != "(loop, step)" or \
+            _gw_norm(bwd.iter) != "enumerate(reversed(range(1, num_steps)))" or bwd.orelse:
+        raise Untranslatable("%s: backward loop header %s" % (qual, _gw_norm(bwd.iter)))
+    btexts = [_gw_norm(s) for s in _cc_strip(bwd.body)]
+    bsimple = {
+        "prog_bar.update(loop)": "progress",
+        "pre_measurement_control, post_measurement_control = controls(step)": "getControls",
+        "first_half_prop, second_half_prop = propagators(step)": "getPropagators",
+        "pt_mpos = _get_pt_mpos_backprop(mpo_list, step)": "getMposBackprop",
+        _GW_SYSOP % "second_half_prop.T": "applyP2T",
+        _GW_SYSOP % "first_half_prop.T": "applyP1T",
+        "if post_measurement_control is not None: " + _GW_SYSOP % "post_measurement_control.T": "applyPostT",
+        "if pre_measurement_control is not None: " + _GW_SYSOP % "pre_measurement_control.T": "applyPreT",
+    }
+    mpo_calls = {
+        "current_node, current_edges = _apply_pt_mpos(current_node, current_edges, pt_mpos)": False,
+        "current_node, current_edges = _apply_pt_mpos(current_node, current_edges, pt_mpos, reverse=True)": True,
+        "current_node, current_edges = _apply_pt_mpos(current_node, current_edges, pt_mpos, True)": True,
+    }
+    tags, reversed_call, k = [], None, 0
+    while k < len(btexts) and not btexts[k].startswith("forwardprop_tensor = "):
+        t = btexts[k]
+        if t in bsimple:
+            tags.append("." + bsimple[t])
+        elif t in mpo_calls:
+            if reversed_call is not None:
+                raise Untranslatable("%s backward loop: two MPO applications" % qual)
+            reversed_call = mpo_calls[t]
+            tags.append(".applyMpoBack")
+        else:
+            raise Untranslatable("%s backward loop: unexpected statement: %s" % (qual, t[:140]))
+        k += 1
+    if reversed_call is None:
+        raise Untranslatable("%s backward loop: no MPO application" % qual)
+    ops, rest = _gw_adjoint_block(btexts[k:], qual + " (backward loop)", "step", None)
+    if rest:
+        raise Untranslatable("%s backward loop: trailing statements %r" % (qual, rest))
+    out.append("/-- %s:%d  %s, backward loop `for loop, step in enumerate(reversed(range(1, num_steps)))`\n"
+               "    (statement order; offsets relative to `step`) -/\n"
+               "def bwdLoop : List GOp := [%s]\n"
+               % (rel, bwd.lineno, qual, ", ".join(tags + ops)))
+    out.append("/-- the backward loop's `_apply_pt_mpos` call passes `reverse=True`: the (leg-swapped) MPO\n"
+               "    tensors of the environments are applied in REVERSED list order -/\n"
+               "def bwdCallReversed : Bool := %s\n" % ("true" if reversed_call else "false"))
+    tail = [_gw_norm(s) for s in top[k2 + 1:] if not _gw_norm(s).startswith("prog_bar")]
+    if tail != ["propagator_derivatives = list(reversed(combined_deriv_list))",
+                "return (propagator_derivatives, dynamics)"]:
+        raise Untranslatable("%s: tail %r" % (qual, tail))
+    out.append("/-- the adjoint tensors are returned in reversed order of construction (entry `k` belongs to\n"
+               "    step `k`), together with the Dynamics object of the forward pass -/\n"
+               "def adjointListReversed : Bool := true\n")
+    return reversed_call
+
+
+def _gw_chain_rule(src, out):
+    rel = "oqupy/gradient.py"
+    fn = src.function(rel, "_chain_rule")
+    inner = [s for s in fn.body if isinstance(s, ast.FunctionDef) and s.name == "combine_derivs"]
+    if len(inner) != 1 or [a.arg for a in inner[0].args.args] != ["target_deriv", "pre_prop", "post_prop"]:
+        raise Untranslatable("_chain_rule: combine_derivs(target_deriv, pre_prop, post_prop)")
+    texts = [_gw_norm(s) for s in _cc_strip(inner[0].body)]
+    if len(texts) != 10 or texts[:3] != ["target_deriv = tn.Node(target_deriv)", "pre_node = tn.Node(pre_prop)",
+                                          "post_node = tn.Node(post_prop)"] \
+            or texts[7:] != ["final_node = target_deriv @ pre_node @ post_node",
+                             "tensor = final_node.tensor", "return tensor"]:
+        raise Untranslatable("_chain_rule.combine_derivs: unexpected shape %r" % texts)
+    conn = {}
+    for t in texts[3:7]:
+        l, _, r = t.partition(" ^ ")
+        ax = _gw_int_sub(l, "target_deriv")
+        if r.startswith("pre_node["):
+            conn[ax] = ("pre", _gw_int_sub(r, "pre_node"))
+        elif r.startswith("post_node["):
+            conn[ax] = ("post", _gw_int_sub(r, "post_node"))
+        else:
+            raise Untranslatable("_chain_rule.combine_derivs: connection " + t)
+    if sorted(conn) != [0, 1, 2, 3] or sorted(conn.values()) != [("post", 0), ("post", 1), ("pre", 0), ("pre", 1)]:
+        raise Untranslatable("_chain_rule.combine_derivs: the connections are not a perfect matching")
+    inv = {v: k for k, v in conn.items()}
+    out.append("/-- %s:%d  _chain_rule.combine_derivs(D, pre, post) = Σ D[a0,a1,a2,a3] · pre[..] · post[..]:\n"
+               "    the axis of `D` joined to index 0 / index 1 of `pre`, then of `post` -/\n"
+               "def chainPreAxes : Nat × Nat := (%d, %d)\ndef chainPostAxes : Nat × Nat := (%d, %d)\n"
+               % (rel, inner[0].lineno, inv[("pre", 0)], inv[("pre", 1)], inv[("post", 0)], inv[("post", 1)]))
+    # the loop filling total_derivs
+    loops = [s for s in fn.body if isinstance(s, ast.For)]
+    if len(loops) != 1 or _gw_norm(loops[0].target) != "i" or _gw_norm(loops[0].iter) != "range(0, num_steps)":
+        raise Untranslatable("_chain_rule: loop over the steps")
+    lb = _cc_strip(loops[0].body)
+    ltexts = [_gw_norm(s) for s in lb]
+    if ltexts[:3] != ["first_half_prop, second_half_prop = propagators(i)",
+                      "first_half_prop_derivs, second_half_prop_derivs = dprop_dparam(i)",
+                      "prog_bar.update(i)"] or len(lb) != 4 or not isinstance(lb[3], ast.For) \
+            or _gw_norm(lb[3].target) != "j" or _gw_norm(lb[3].iter) != "range(0, num_parameters)":
+        raise Untranslatable("_chain_rule: loop body %r" % ltexts[:3])
+    names = {"first_half_prop": "firstProp", "second_half_prop": "secondProp",
+             "first_half_prop_derivs[j]": "firstDeriv", "second_half_prop_derivs[j]": "secondDeriv"}
+    rows = {}
+    for s in lb[3].body:
+        if not (isinstance(s, ast.Assign) and isinstance(s.value, ast.Call)
+                and _gw_norm(s.value.func) == "combine_derivs" and len(s.value.args) == 3
+                and not s.value.keywords):
+            raise Untranslatable("_chain_rule: unexpected statement " + _gw_norm(s)[:100])
+        tgt = _gw_norm(s.targets[0])
+        if tgt == "total_derivs[2 * i][j]":
+            row = 0
+        elif tgt == "total_derivs[2 * i + 1][j]":
+            row = 1
+        else:
+            raise Untranslatable("_chain_rule: target " + tgt)
+        if _gw_norm(s.value.args[0]) != "adjoint_tensor[i]":
+            raise Untranslatable("_chain_rule: the adjoint tensor of step i is not used for row %d" % row)
+        slots = []
+        for a in s.value.args[1:]:
+            t = _gw_norm(a)
+            tr = t.endswith(".T")
+            base = t[:-2] if tr else t
+            if base not in names:
+                raise Untranslatable("_chain_rule: argument " + t)
+            slots.append("(.%s, %s)" % (names[base], "true" if tr else "false"))
+        rows[row] = slots
+    if sorted(rows) != [0, 1]:
+        raise Untranslatable("_chain_rule: rows 2i and 2i+1 are not both filled")
+    for row, nm in ((0, "chainRowEven"), (1, "chainRowOdd")):
+        out.append("/-- _chain_rule: total_derivs[2*i%s][j] = combine_derivs(adjoint_tensor[i], pre, post) with\n"
+                   "    (array, transposed?) for `pre` and `post` -/\n"
+                   "def %s : (PropArg × Bool) × (PropArg × Bool) := (%s, %s)\n"
+                   % ("" if row == 0 else "+1", nm, rows[row][0], rows[row][1]))
+    # state_gradient
+    fn = src.function(rel, "state_gradient")
+    text = _gw_norm(fn)
+    need = ["grad_prop, dynamics = compute_gradient_and_dynamics(system=system, initial_state=initial_state, "
+            "target_derivative=target_derivative, process_tensors=process_tensors, parameters=parameters, "
+            "start_time=start_time, dt=dt, num_steps=num_steps, progress_type=progress_type)",
+            "num_steps = len(process_tensors[0])",
+            "dt = process_tensors[0].dt",
+            "get_half_props = system.get_propagators(dt, parameters)",
+            "get_prop_derivatives = system.get_propagator_derivatives(dt, parameters)",
+            "final_derivs = _chain_rule(adjoint_tensor=grad_prop, dprop_dparam=get_prop_derivatives, "
+            "propagators=get_half_props, num_steps=num_steps, num_parameters=num_parameters, "
+            "progress_type=progress_type)",
+            "return_dict = {'final_state': dynamics.states[-1], 'gradprop': grad_prop, "
+            "'gradient': final_derivs, 'dynamics': dynamics}",
+            "return return_dict"]
+    for n in need:
+        if n not in text:
+            raise Untranslatable("state_gradient: missing `%s`" % n[:80])
+    out.append("/-- %s:%d  state_gradient: no control is passed; the same `parameters` give the propagators of\n"
+               "    the forward/backward pass and of the chain rule; 'gradient' = _chain_rule(adjoint tensors),\n"
+               "    'dynamics' = the forward pass, 'final_state' = its last state -/\n"
+               "def stateGradientShapeChecked : Bool := true\n" % (rel, fn.lineno))
+    # ParameterizedSystem.get_propagators / get_propagator_derivatives: half-step indices
+    rel2 = "oqupy/system.py"
+    fn = src.function(rel2, "ParameterizedSystem.get_propagators")
+    text = _gw_norm(fn)
+    for n in ["pre_liou = self.liouvillian(*list(parameters[2 * step][:]))",
+              "post_liou = self.liouvillian(*list(parameters[2 * step + 1][:]))",
+              "first_step = expm(pre_liou * dt / 2.0)", "second_step = expm(post_liou * dt / 2.0)",
+              "return (first_step, second_step)"]:
+        if n not in text:
+            raise Untranslatable("ParameterizedSystem.get_propagators: missing `%s`" % n)
+    fn = src.function(rel2, "ParameterizedSystem.get_propagator_derivatives")
+    text = _gw_norm(fn)
+    if text.count("pre_params = parameters[2 * step]") != 2 or \
+            text.count("post_params = parameters[2 * step + 1]") != 2 or \
+            "pre_prop_derivs = self._propagator_derivatives(dt, pre_params)" not in text or \
+            "post_prop_derivs = self._propagator_derivatives(dt, post_params)" not in text or \
+            "pre_prop_derivs = pd(pre_params)" not in text or "post_prop_derivs = pd(post_params)" not in text or \
+            text.count("return (pre_prop_derivs, post_prop_derivs)") != 2:
+        raise Untranslatable("ParameterizedSystem.get_propagator_derivatives: half-step indexing")
+    out.append("/-- %s:%d  ParameterizedSystem: propagators(step) = (expm(L(parameters[2*step])·dt/2),\n"
+               "    expm(L(parameters[2*step+1])·dt/2)); the derivatives use the same two rows -/\n"
+               "def halfStepRows : Nat × Nat := (0, 1)\n" % (rel2, fn.lineno))
+
+
+@fragment("GradWiring")
+def frag_gradwiring(src):
+    out = [GW_PREAMBLE]
+    _gw_sysop(src, out)
+    has_reverse = _gw_apply_pt_mpos(src, out)
+    _gw_backprop_mpos(src, out)
+    _gw_derivative_mpos(src, out)
+    reversed_call = _gw_gradient_loops(src, out)
+    if reversed_call and not has_reverse:
+        raise Untranslatable("compute_gradient_and_dynamics passes `reverse` to an _apply_pt_mpos "
+                             "that has no such parameter")
+    _gw_chain_rule(src, out)
+    out.append("/-- order in which the backward pass visits the environments: reversed list order iff the\n"
+               "    call passes `reverse=True` -/\n"
+               "def bwdEnvReversed : Bool := bwdCallReversed\n")
+    out.append("/-- `fwd_edges[i] ^ backprop_tensor[i]` addresses the backward node's axes by POSITION: it\n"
+               "    joins the bond legs of the same environment iff the node's axes are in list order, i.e.\n"
+               "    the environments were visited in list order or the axes were reordered afterwards -/\n"
+               "def bwdJoinAligned : Bool := (!bwdCallReversed) || applyReverseReorders\n")
+    return "\n".join(out)
+# end of GradWiring
 
 
 def main():
